@@ -83,7 +83,7 @@ def e2e_family(tier):
     FL = [0, 1, 16, 2, 4, 8, 17, 18, 20, 24, 9, 32, 48, 3, 6, 1 | 64 | 16, 2 | 16 | 64 | 4, 63 & ~8 | 64, 8 | 16 | 1 | 64]
     W = [(0, 0), (1, 1), (1, 5), (1, 12), (1, 70), (2, 6), (2, -9), (2, 0), (2, 70), (2, -70)]
     P = [(0, 0), (3, 0), (1, 0), (1, 1), (1, 7), (1, 70), (2, 3), (2, -1), (2, 0), (2, 70)]
-    per = 2 if tier == 'quick' else 14
+    per = 2 if tier == 'quick' else 5
     out = []; seen = set()
     for conv in range(12):
         for lm in range(8):
@@ -169,9 +169,9 @@ def queries(tier):
     # ---------------------------------------------------------------- (B) conversion back ends
     int_convs = [0, 2, 3, 4, 5, 10] if quick else [0, 1, 2, 3, 4, 5, 10, 11]
     for conv in int_convs:
-        lms = ([0] if conv == 5 else [0, 3] if conv == 10 else [0, 1, 2, 3]) if quick else list(range(8))
+        lms = ([0] if conv == 5 else [0, 3] if conv == 10 else [0, 1, 2, 3]) if quick else ([0, 1, 2, 3, 4, 6] if conv in (0, 2, 4) else [0, 1, 3, 4])
         for lm in lms:
-            vcs = ([0] + ([3, 4, 5] if conv in (0, 2, 3, 4) and lm in (0, 3) else [])) if quick else list(range(9))
+            vcs = ([0] + ([3, 4, 5] if conv in (0, 2, 3, 4) and lm in (0, 3) else [])) if quick else [0, 3, 4, 5, 8]
             for vc in vcs:
                 dg = ndigits(conv, vc, D10)
                 qs.append(PQ('opts.%s%s.v%d' % (LMS[lm], CONVS[conv], vc), 'harness_opts', {'PINS': pins({'conv': conv, 'lm': lm, 'vclass': vc})}, WB, dg,
@@ -238,9 +238,10 @@ def queries(tier):
         qs.append(Q('fmt0[%s]' % t, 'c19_fmt', 'c19_fmt.c', 'harness_fmt', defs={'TEMPLATE': '"%s"' % t, 'NARGS': 0}, unwind=12, inline_witness=True, timeout=300, mem_gb=2,
                     bounds={'template': t, 'arguments': 'none'}, what='fmt("%s") without arguments echoes every spec' % t))
     # ---------------------------------------------------------------- logger
-    for n in (range(0, 25) if not quick else [0, 1, 6, 7, 8, 9, 13, 14, 15, 16, 20, 21, 22, 24]):
+    for n in (range(0, 25) if not quick else [0, 1, 6, 7, 8, 9, 13, 14, 15, 16, 20, 21, 22, 24]):      # thorough: every length, every second split
         splits = sorted({(p0, p1) for p0 in (0, 1, 3, 6, 7, 8, 14, n) if p0 <= n for p1 in (0, 1, 6, 7, 8, n - p0) if 0 <= p1 <= n - p0})
         if quick: splits = splits[(n % 3)::5]
+        else: splits = splits[(n % 2)::2]
         for (p0, p1) in splits:
             qs.append(Q('log.len%d.%d-%d-%d' % (n, p0, p1, n - p0 - p1), 'c19_log', 'c19_log.c', 'harness_log', defs={'LEN': n, 'P0': p0, 'P1': p1}, unwind=max(n, 8) + 3, inline_witness=True, timeout=600, mem_gb=3,
                         bounds={'message length': n, 'Limit': 8, 'pieces': '%d + %d + %d bytes, each through a solver-chosen path: append(char) / append(const char*) / operator<<(const char*)' % (p0, p1, n - p0 - p1), 'endlog': 'with and without', 'content': 'any non-NUL bytes'},
